@@ -51,14 +51,10 @@ func (x *Ctx) calls() *callIndex {
 					}
 				}
 			}
-			for _, a := range site.Common().Args {
-				if mc, ok := a.(*ssa.MakeClosure); ok {
-					if f, ok := mc.Fn.(*ssa.Function); ok {
-						ci.out[fn] = append(ci.out[fn], callEdgeX{site, f, spawn})
-						ci.in[f] = append(ci.in[f], fn)
-						ci.inSites[f] = append(ci.inSites[f], callEdgeX{site, fn, spawn})
-					}
-				}
+			for _, f := range closureArgs(site) {
+				ci.out[fn] = append(ci.out[fn], callEdgeX{site, f, spawn})
+				ci.in[f] = append(ci.in[f], fn)
+				ci.inSites[f] = append(ci.inSites[f], callEdgeX{site, fn, spawn})
 			}
 		}
 		// closures stored/returned rather than passed: treat as callable from the definer
@@ -144,4 +140,39 @@ func (x *Ctx) directCallers(obj *types.Func) []ssa.CallInstruction {
 		return nil
 	}
 	return x.calls().direct[obj.Origin()]
+}
+
+// closureArgs lists the anonymous functions passed to a call, directly (possibly
+// converted to a named function type) or inside a variadic argument.
+func closureArgs(site ssa.CallInstruction) []*ssa.Function {
+	var out []*ssa.Function
+	add := func(v ssa.Value) {
+		switch t := prog.Strip(v).(type) {
+		case *ssa.MakeClosure:
+			if f, ok := t.Fn.(*ssa.Function); ok {
+				out = append(out, f)
+			}
+		case *ssa.Function:
+			if t.Parent() != nil { // an anonymous function without free variables
+				out = append(out, t)
+			}
+		}
+	}
+	for _, a := range site.Common().Args {
+		add(a)
+		if sl, ok := a.(*ssa.Slice); ok {
+			if al, ok := sl.X.(*ssa.Alloc); ok {
+				for _, r := range *al.Referrers() {
+					if ia, ok := r.(*ssa.IndexAddr); ok {
+						for _, rr := range *ia.Referrers() {
+							if st, ok := rr.(*ssa.Store); ok {
+								add(st.Val)
+							}
+						}
+					}
+				}
+			}
+		}
+	}
+	return out
 }
